@@ -30,6 +30,7 @@ var c19Sources = []c19Src{
 	{"ipv4", "203.0.113.9:5555", true},
 	{"ipv6", "[2001:db8::9]:5555", true},
 	{"ipv6-loopback", "[::1]:1", true},
+	{"ipv6-link-local-with-zone", "[fe80::1%eth0]:5555", true},
 	{"empty", "", true},
 	{"none", "", false},
 }
@@ -55,7 +56,7 @@ func c19Unit(endpoint string, shard, nshards int) vh.Unit {
 		overrides = append(overrides, ov{absent: true})
 		for _, scheme := range []string{"enode://", "http://", ""} {
 			for _, user := range []string{"own", "other", "empty", "own:pw", "other:pw", "none"} {
-				for _, h := range []string{"1.2.3.4", "example.org", "[2001:db8::1]", "[::]", "0.0.0.0", ""} {
+				for _, h := range []string{"1.2.3.4", "example.org", "[2001:db8::1]", "[fe80::2%25eth1]", "[::]", "0.0.0.0", ""} {
 					for _, port := range []string{"", "30303", "1", "65535"} {
 						for _, tail := range []string{"", "/x", "?discport=0"} {
 							o := ov{scheme: scheme, user: user, h: h, port: port}
@@ -125,6 +126,9 @@ func c19Unit(endpoint string, shard, nshards int) vh.Unit {
 					srcHost, _, _ = net.SplitHostPort(src.addr)
 				}
 				ovHost := strings.Trim(o.h, "[]")
+				if unesc, err := url.PathUnescape(ovHost); err == nil {
+					ovHost = unesc // (a zone is written %25 inside a URI)
+				}
 				hostGiven := !o.absent && ovHost != "" && ovHost != "::"
 				wantHost := srcHost
 				if hostGiven {
@@ -320,6 +324,86 @@ func c19MoveWhileAsked(bound int) vh.Unit {
 	}}
 }
 
+// a host registers, then registers again: what is stored and handed out afterwards is what the
+// *second* registration says (its override, or by default the address it came from this time),
+// whatever the first one left behind
+func c19Sequences() vh.Unit {
+	name := "re-registrations"
+	ids := vh.Identities()
+	host, client := ids[1], ids[0]
+	type reg struct {
+		label, override, src, wantHost, wantPort string
+	}
+	regs := []reg{
+		{"no override from 203.0.113.9", "", "203.0.113.9:5555", "203.0.113.9", "30303"},
+		{"no override from 198.51.100.7", "", "198.51.100.7:6666", "198.51.100.7", "30303"},
+		{"no override from [2001:db8::9]", "", "[2001:db8::9]:5555", "2001:db8::9", "30303"},
+		{"override 1.2.3.4:30305", "enode://" + host.NodeID + "@1.2.3.4:30305", "203.0.113.9:5555", "1.2.3.4", "30305"},
+		{"override example.org (no port)", "enode://" + host.NodeID + "@example.org", "198.51.100.7:6666", "example.org", "30303"},
+		{"port-only override :31000", "enode://" + host.NodeID + "@:31000", "198.51.100.7:6666", "198.51.100.7", "31000"},
+	}
+	return vh.Unit{Name: name, Run: func(u *vh.U) {
+		for _, endpoint1 := range []string{"vipnode_connect", "vipnode_host"} {
+			for _, endpoint2 := range []string{"vipnode_connect", "vipnode_host"} {
+				for _, first := range regs {
+					for _, second := range regs {
+						for _, sameConn := range []bool{true, false} {
+							vsched.ResetClock(0)
+							pw := vh.NewPoolWorld(vh.PoolConfig{Driver: vh.Memory, NoManager: true})
+							do := func(ep string, r reg, conn string, n int64) error {
+								fh := pw.Host(conn)
+								fh.Addr = r.src
+								ctx := vh.CtxWith(vh.HostWithAddr{FakeHost: fh})
+								nonce := vsched.Now().UnixNano() + n
+								if ep == "vipnode_connect" {
+									req := pool.ConnectRequest{NodeInfo: ethnode.UserAgent{Kind: ethnode.Geth, IsFullNode: true}, NodeURI: r.override}
+									_, err := pw.Pool.Connect(ctx, host.SignNode("vipnode_connect", nonce, req), host.NodeID, nonce, req)
+									return err
+								}
+								req := pool.HostRequest{Kind: "geth", NodeURI: r.override}
+								_, err := pw.Pool.Host(ctx, host.SignNode("vipnode_host", nonce, req), host.NodeID, nonce, req)
+								return err
+							}
+							conn2 := "conn"
+							if !sameConn {
+								conn2 = "conn-2"
+							}
+							err1 := do(endpoint1, first, "conn", 10)
+							err2 := do(endpoint2, second, conn2, 20)
+							u.R.Evaluations++
+							u.R.States++
+							u.R.Transitions += 2
+							u.R.Traces++
+							u.Observe(fmt.Sprintf("%s/%s same-conn=%v", endpoint1, endpoint2, sameConn))
+							desc := fmt.Sprintf("%s (%s), then %s (%s) on %s connection", endpoint1, first.label, endpoint2, second.label, map[bool]string{true: "the same", false: "a new"}[sameConn])
+							if err1 != nil || err2 != nil {
+								u.Violate("uri/valid-registration-refused", fmt.Sprintf("%s: %v / %v", desc, err1, err2), nil)
+								continue
+							}
+							node, gerr := pw.Raw.GetNode(store.NodeID(host.NodeID))
+							want := "enode://" + host.NodeID + "@" + net.JoinHostPort(second.wantHost, second.wantPort)
+							if gerr != nil || node.URI != want {
+								got := "<none>"
+								if node != nil {
+									got = strings.Replace(node.URI, host.NodeID, "<id>", 1)
+								}
+								u.Violate("uri/re-registration-keeps-stale-address", fmt.Sprintf("%s: stored %s, expected %s", desc, got, strings.Replace(want, host.NodeID, "<id>", 1)), nil)
+								continue
+							}
+							pw.Raw.SetNode(store.Node{ID: store.NodeID(client.NodeID), Kind: "geth", LastSeen: vsched.Now()})
+							resp, perr := pw.Peer(context.Background(), client, 1, "")
+							if perr != nil || resp == nil || len(resp.Peers) != 1 || resp.Peers[0].URI != want {
+								u.Violate("uri/handed-out-address-differs", fmt.Sprintf("%s: stored %q, vipnode_peer returned %+v err=%v", desc, node.URI, resp, perr), nil)
+							}
+						}
+					}
+				}
+			}
+		}
+		u.Sample("every ordered pair of 6 registrations x 2 endpoints each x same/new connection")
+	}}
+}
+
 func init() {
 	vh.Register(&vh.Check{
 		ID: "C19", Level: "model_checking",
@@ -337,7 +421,7 @@ func init() {
 			if tier == "thorough" {
 				b = 3
 			}
-			us = append(us, c19ConcurrentHosts(2, b), c19MoveWhileAsked(b))
+			us = append(us, c19ConcurrentHosts(2, b), c19MoveWhileAsked(b), c19Sequences())
 			if tier == "thorough" {
 				us = append(us, c19ConcurrentHosts(3, 2))
 			}
